@@ -143,6 +143,22 @@ class VLoop(asyncio.BaseEventLoop):
         CLOCK.now = target
         self.run_ready(limit)
 
+    def advance_to(self, target, inclusive=True, limit=20000):
+        """Advance the clock to the absolute virtual time `target`, firing timers
+        in time order (those due exactly at `target` only when inclusive)."""
+        self.run_ready(limit)
+        while True:
+            t = self.next_timer()
+            if t is None or t > target + 1e-9 or (not inclusive and t >= target - 1e-9):
+                break
+            if t > CLOCK.now:
+                CLOCK.now = t
+            self.fire_due()
+            self.run_ready(limit)
+        if target > CLOCK.now:
+            CLOCK.now = target
+        self.run_ready(limit)
+
     def run_coro(self, coro, limit=20000):
         """Run a coroutine as a task until it finishes or the loop goes quiescent.
         Returns the task."""
